@@ -10,6 +10,13 @@ a reference controller) or drawn at random; TLC validates every recorded
 history against Topo.tla (TraceTopo.tla) and names the violated clause.
 specs/topo/Probe.tla enumerates datapath ids / port numbers for the probe
 encoding; its behaviours are replayed on the real LLDP sender and receiver.
+
+Round 6: the CONFIGURATION of the two components (Topo.tla `cfg`: discovery's
+--link_timeout, from which the probe cycle / detection / expiry times derive,
+--no_flow / --explicit_drop / --eat_early_packets, spanning_tree's --no-flood
+/ --hold-down) is a dimension of the spec; TLC draws it in Init, the histories
+carry it in their header, the components are launched with it through their
+public launchers, and the same clauses judge every configuration.
 """
 import collections
 import concurrent.futures
@@ -24,6 +31,8 @@ SPEC = "topo"
 # TLC names a disjunct of Next after the innermost named operator it unfolds to
 DYN_ACTIONS = [("UpAny", "UpNext"), ("DownAny", "DownNext"), ("AdvanceAny", "AdvanceNext"),
                ("CutNext",), ("RestoreNext",), ("FloodNext",)]
+CFG_ACTIONS = [(c + a,) for c in ("Plain", "Hold", "Nofl", "Both")
+               for a in ("Up", "Down", "Advance", "Cut", "Restore", "Flood")]
 DRIVER = "harness.adapters_c19:run_scenario"
 PROBE_ADAPTER = "harness.adapters_c19:ProbeAdapter"
 
@@ -37,8 +46,20 @@ def model_check_start(ctx, quick):
   meanwhile."""
   jobs = [("Topo dynamic: 2 switches, cable + one-way wire", "MC_one.cfg", DYN_ACTIONS),
           ("Topo static: all sub-multigraphs x all permitted forests (parallel / triangle / self-loop nets)",
-           "MC_static_small.cfg", [("FloodNext",)])]
+           "MC_static_small.cfg", [("FloodNext",)]),
+          # configurations: Next is split per class of configuration (MCTopo.tla NextCfgs), so that the
+          # vacuity guard holds per class: every action taken under each of them
+          ("Topo dynamic under 4 configurations (2 switches, one cable): link timeout 3 (odd, short) with "
+           "--no_flow / no explicit drop / eat early packets; timeout 4 with --hold-down, --no-flood, both",
+           "MC_min_cfgs.cfg", CFG_ACTIONS)]
   if not quick:
+    jobs += [("Topo dynamic, link timeout 3, discovery flags flipped (cable + one-way wire)", "MC_one_short.cfg",
+              DYN_ACTIONS),
+             ("Topo dynamic, link timeout 30 (cable + one-way wire)", "MC_one_long.cfg", DYN_ACTIONS),
+             ("Topo dynamic, --hold-down, durations Detect / Expire (young switches' bits free for 1 s)",
+              "MC_min_hold.cfg", DYN_ACTIONS),
+             ("Topo dynamic, --no-flood, durations Detect / Expire", "MC_min_nofl.cfg", DYN_ACTIONS),
+             ("Topo dynamic, --no-flood --hold-down, durations Detect / Expire", "MC_min_both.cfg", DYN_ACTIONS)]
     # (MC_chain.cfg / MC_tri16.cfg: larger dynamic nets, 5-10 min each, run by hand; see notes/C19.md)
     jobs += [("Topo dynamic: 2 switches, 2 parallel cables", "MC_par.cfg", DYN_ACTIONS),
              ("Topo dynamic: self-loop cable + neighbour", "MC_loop.cfg", DYN_ACTIONS),
@@ -55,11 +76,18 @@ def model_check_start(ctx, quick):
   return p, rx, jobs
 
 
+def _mc_workers(cfg, quick):
+  # the small models gain nothing from many workers; several JVMs run side by side
+  if cfg == "MC_one.cfg":
+    return 8 if quick else 4
+  return 2 if quick and "static" in cfg else 4
+
+
 def _mc_child(jobs, quick, tx):
   def one(job):
     name, cfg, acts = job
     try:
-      return ("ok", tlc.run(SPEC, "MCTopo", cfg, tag="C19", workers=(8 if quick else 4), timeout=1500))
+      return ("ok", tlc.run(SPEC, "MCTopo", cfg, tag="C19", workers=_mc_workers(cfg, quick), timeout=1500))
     except Exception as e:
       return ("err", "%s: %s" % (cfg, e))
   with concurrent.futures.ThreadPoolExecutor(max_workers=len(jobs)) as ex:
@@ -96,7 +124,7 @@ def tlc_scenarios(ctx, num, seed):
   """Environment histories simulated by TLC from Topo.tla under the reference
   controller.  Returns (scenarios for the real code, the same behaviours as
   traces whose observations are the SPEC's own responses)."""
-  from harness.adapters_c19 import rec
+  from harness.adapters_c19 import rec, header
   r = tlc.run(SPEC, "MCTopo", "EX_sim.cfg", workers=1, coverage=False, simulate=dict(num=num),
               depth=25, seed=seed, tag="C19")
   out, spec_traces = [], []
@@ -111,7 +139,7 @@ def tlc_scenarios(ctx, num, seed):
     b["phys0"] = [list(x) for x in ph]
     sc = gen.from_tlc(b, b["net"], seed * 1000 + i)
     out.append(sc)
-    tr = [rec(a="Init", n=sc["n"], np=sc["np"], wires=sc["wires"], phys=sc["phys"])]
+    tr = [header(sc)]
     for st, h in zip(sc["steps"], b["h"]):
       e = h["exp"]
       if st["a"] == "Flood":
@@ -128,7 +156,7 @@ def tlc_scenarios(ctx, num, seed):
 
 
 def strip(tr):
-  return [{k: v for k, v in e.items() if k != "exc"} for e in tr]
+  return [{k: v for k, v in e.items() if k not in ("exc", "opts")} for e in tr]
 
 
 def validate(ctx, traces, shards, cfg="Trace.cfg"):
@@ -176,6 +204,11 @@ def classify(sc, tr, k, why):
   """signature of a violated step: clause + what the environment did"""
   ev = tr[k]
   sig = dict(clause=why, action=ev["a"], via="trace")
+  # the configuration the components were launched with (Topo.tla cfg)
+  c = tr[0]
+  sig["link_timeout"] = "default" if c["to"] == 10 else ("short" if c["to"] < 10 else "long")
+  sig["no_flood"], sig["hold_down"] = c["nofl"], c["hold"]
+  sig["discovery_flags_default"] = bool(c["flow"] and c["drop"] and not c["eat"])
   hist = [e["a"] for e in tr[1:k + 1]]
   sig["after_switch_down"] = "SwitchDown" in hist
   sig["after_wire_cut"] = "Cut" in hist
@@ -245,6 +278,28 @@ def run_and_validate(ctx, label, scs, shards, procs=16):
         raise core.Machinery("no %s step was run on the implementation" % a)
     if not any(e["a"] == "Flood" and sum(e["rx"]) > 0 for tr in traces for e in tr[1:]):
       raise core.Machinery("no flood probe crossed a link")
+    # ... under every class of configuration
+    cls = collections.defaultdict(collections.Counter)
+    for tr in traces:
+      h = tr[0]
+      names = ["timeout<10" if h["to"] < 10 else ("timeout>10" if h["to"] > 10 else "timeout=10"),
+               "st:%s%s" % ("no-flood" if h["nofl"] else "", "+hold-down" if h["hold"] else "")]
+      if not (h["flow"] and h["drop"] and not h["eat"]):
+        names.append("discovery flags")
+      for e in tr[1:]:
+        for nm in names:
+          cls[nm][e["a"]] += 1
+          if e["a"] == "Flood" and sum(e["rx"]) > 0:
+            cls[nm]["Flood crossing a link"] += 1
+          if e["a"] == "Advance" and e["adj"]:
+            cls[nm]["Advance with known links"] += 1
+    ctx.notes["implementation_steps_by_configuration"] = {k: dict(v) for k, v in cls.items()}
+    for nm in ("timeout<10", "timeout>10", "timeout=10", "st:", "st:no-flood", "st:+hold-down", "st:no-flood+hold-down",
+               "discovery flags"):
+      for a in ("SwitchUp", "SwitchDown", "Advance", "Cut", "Restore", "Flood crossing a link",
+                "Advance with known links"):
+        if cls[nm][a] == 0:
+          raise core.Machinery("no %s step was run on the implementation under configuration class %s" % (a, nm))
   return traces, bad
 
 
@@ -271,12 +326,38 @@ def _env(tr, k):
 def validator_controls(ctx, spec_traces):
   ctl = []
 
-  def find(pred):
+  def modal(tr):
+    return tr[0]["nofl"] or tr[0]["hold"]
+
+  def find(pred, which=lambda tr: not modal(tr)):
+    # (the corruptions of the forest clauses are built in behaviours without a spanning_tree option: with one,
+    # a young switch may legitimately look like the corruption)
     for i, tr in enumerate(spec_traces):
+      if not which(tr):
+        continue
       for k in range(1, len(tr)):
         if pred(tr, k):
           return i, k
     return None
+
+  def since(tr, k):
+    """switch -> seconds since its last connect, after event k"""
+    t, up = 0, {}
+    for e in tr[1:k + 1]:
+      if e["a"] == "Advance":
+        t += e["d"]
+      elif e["a"] == "SwitchUp":
+        up[e["s"]] = t
+      elif e["a"] == "SwitchDown":
+        up.pop(e["s"], None)
+    return {s_: t - t0 for s_, t0 in up.items()}
+
+  def mature(tr, k):
+    """after Advance step k every connected switch has been connected for longer than Hold + Slack"""
+    if tr[k]["a"] != "Advance":
+      return False
+    sn = since(tr, k)
+    return bool(sn) and all(v >= (tr[0]["to"] + 1) // 2 + 3 for v in sn.values())
   # 1 NO_FLOOD on a host-facing port of a connected switch
   x = find(lambda tr, k: tr[k]["a"] == "Advance" and _env(tr, k)[1])
   if x:
@@ -317,14 +398,14 @@ def validator_controls(ctx, spec_traces):
       if l[0] != l[2] and (l[2], l[3], l[0], l[1]) in adjset and [l[0], l[1]] in tr[k]["nf"] and [l[2], l[3]] in tr[k]["nf"]:
         return l
     return None
-  x = find(lambda tr, k: redundant(tr, k) is not None)
+  x = find(lambda tr, k: redundant(tr, k) is not None and (not modal(tr) or mature(tr, k)), lambda tr: True)
   if x:
     tr = copy.deepcopy(spec_traces[x[0]])
     l = redundant(tr, x[1])
     tr[x[1]]["nf"] = [p for p in tr[x[1]]["nf"] if p not in ([l[0], l[1]], [l[2], l[3]])]
     ctl.append(("flood-cycle", tr[:x[1] + 1]))
   # 5 a flooded frame is delivered twice
-  x = find(lambda tr, k: tr[k]["a"] == "Flood" and sum(tr[k]["rx"]) > 0)
+  x = find(lambda tr, k: tr[k]["a"] == "Flood" and sum(tr[k]["rx"]) > 0, lambda tr: True)
   if x:
     tr = copy.deepcopy(spec_traces[x[0]])
     j = [i for i, c in enumerate(tr[x[1]]["rx"]) if c][0]
@@ -339,8 +420,71 @@ def validator_controls(ctx, spec_traces):
     tr[x[1]]["adj"] = sorted(tr[x[1]]["adj"] + [l])
     tr[x[1]]["evs"] = tr[x[1]]["evs"] + [[1] + l]
     ctl.append(("adj-phantom-link", tr[:x[1] + 1]))
-  if len(ctl) < 5:
-    raise tlc.TLCError("could not build the validator's negative controls (%d): %s" % (len(ctl), [w for w, _ in ctl]))
+  n_old = len(ctl)
+  # 7 a known, live, long undisturbed link is withdrawn and announced again inside one step
+  #   (the adjacency reached is the same: only the announcements show it) - any link timeout
+  def steady(tr, k):
+    """a link that is known and live when Advance step k begins, its liveness and the set of connected
+    switches unchanged for a full probe cycle + slack by then (Topo.tla: age, quiet >= Detect)"""
+    if tr[k]["a"] != "Advance" or k < 2:
+      return None
+    det = (tr[0]["to"] + 1) // 2 + 1
+    t, member = 0, -99
+    changed = {}
+    live0 = set()
+    for j in range(1, k):
+      e = tr[j]
+      if e["a"] == "Advance":
+        t += e["d"]
+      elif e["a"] in ("SwitchUp", "SwitchDown"):
+        member = t
+      ph, cn = _env(tr, j)
+      live = set(l for l in ph if l[0] in cn and l[2] in cn)
+      for l in live ^ live0:
+        changed[l] = t
+      live0 = live
+    if t - member < det:
+      return None
+    for l in tr[k - 1]["adj"]:
+      if tuple(l) in live0 and t - changed.get(tuple(l), -99) >= det and l in tr[k]["adj"]:
+        return l
+    return None
+  for name, which in (("default", lambda tr: tr[0]["to"] == 10 and not modal(tr)),
+                      ("short", lambda tr: tr[0]["to"] < 10 and not modal(tr))):
+    x = find(lambda tr, k: steady(tr, k) is not None, which)
+    if x:
+      tr = copy.deepcopy(spec_traces[x[0]])
+      l = steady(tr, x[1])
+      tr[x[1]]["evs"] = [[0] + l, [1] + l] + tr[x[1]]["evs"]
+      ctl.append(("adj-live-link-dropped", tr[:x[1] + 1]))
+  n_churn = len(ctl) - n_old
+  # 8 --no-flood --hold-down: a port of a switch that has just connected floods
+  x = find(lambda tr, k: tr[k]["a"] == "SwitchUp", lambda tr: tr[0]["nofl"] and tr[0]["hold"])
+  if x:
+    tr = copy.deepcopy(spec_traces[x[0]])
+    tr[x[1]]["nf"] = [p for p in tr[x[1]]["nf"] if p != [tr[x[1]]["s"], tr[0]["np"]]]
+    ctl.append(("flood-enabled-during-hold-down", tr[:x[1] + 1]))
+  # 9 --hold-down alone: a port of a switch that has just connected is touched
+  x = find(lambda tr, k: tr[k]["a"] == "SwitchUp", lambda tr: tr[0]["hold"] and not tr[0]["nofl"])
+  if x:
+    tr = copy.deepcopy(spec_traces[x[0]])
+    p = [tr[x[1]]["s"], tr[0]["np"]]
+    tr[x[1]]["nf"] = sorted(tr[x[1]]["nf"] + [p]) if p not in tr[x[1]]["nf"] else [q for q in tr[x[1]]["nf"] if q != p]
+    ctl.append(("flood-changed-during-hold-down", tr[:x[1] + 1]))
+
+  # 10 a spanning_tree option is set and the hold time is over: a host-facing port is still blocked
+  for which in (lambda tr: tr[0]["nofl"] and not tr[0]["hold"], lambda tr: tr[0]["hold"]):
+    x = find(mature, which)
+    if x:
+      tr = copy.deepcopy(spec_traces[x[0]])
+      s_ = sorted(_env(tr, x[1])[1])[0]
+      if [s_, tr[0]["np"]] not in tr[x[1]]["nf"]:
+        tr[x[1]]["nf"] = sorted(tr[x[1]]["nf"] + [[s_, tr[0]["np"]]])
+        ctl.append(("flood-host-port-blocked", tr[:x[1] + 1]))
+  n_modal = len(ctl) - n_old - n_churn
+  if n_old < 4 or n_churn < 1 or n_modal < 2:
+    raise tlc.TLCError("could not build the validator's negative controls (%d + %d + %d): %s"
+                       % (n_old, n_churn, n_modal, [w for w, _ in ctl]))
   batch = spec_traces + [t for _, t in ctl]
   r, rej = tracecheck.validate(SPEC, "TraceTopo", "Trace_inv.cfg", [strip(t) for t in batch], tag="C19")
   why = {}
@@ -408,19 +552,30 @@ def run(ctx):
               "cut/restore/time histories on nets of up to 12 switches incl. one-way, parallel and self-loop "
               "wires) run on the real Discovery + LLDPSender + spanning_tree over real switches and OpenFlow "
               "bytes under a virtual clock; after every step adjacency, LinkEvents and the switches' NO_FLOOD "
-              "bits are recorded and TLC decides whether the history is a behaviour of Topo.tla; distinct = "
+              "bits are recorded and TLC decides whether the history is a behaviour of Topo.tla; the components "
+              "are launched through their public launchers with the configuration of the history (Topo.tla cfg: "
+              "link timeouts 1..30 s, --no_flow / --explicit_drop / --eat_early_packets, spanning_tree --no-flood "
+              "/ --hold-down; all 16 two-switch multigraphs under 12 configurations, sampled three-switch ones, "
+              "random and TLC-simulated histories under random configurations); distinct = "
               "distinct (net, wiring, history); non-trivial = some link was discovered")
   ctx.assumptions = [
-      "time in whole seconds; a link must be known after Cycle+1 = 6 s of undisturbed liveness and gone 16 s "
-      "(timeout 10 + check period 5 + 1) after its last probe; inside these windows either is accepted",
-      "environment assumption (in the spec): connects/disconnects come in batches at least 6 s apart "
+      "time in whole seconds; with link timeout T a link must be known after ceil(T/2)+1 s of undisturbed "
+      "liveness (default 6 s) and gone T+5+1 s (default 16 s: timeout + check period + 1) after its last probe; "
+      "inside these windows either is accepted",
+      "environment assumption (in the spec): connects/disconnects come in batches at least ceil(T/2)+1 s apart "
       "(each restarts the LLDP send timer)",
+      "environment assumption (in the spec, CfgFits): one probe per port and cycle stays within the sender's "
+      "15 timer runs per second (2 * switches * ports <= 15 * T); beyond that the sender batches at random",
+      "spanning_tree --hold-down / --no-flood: while a switch is young (connected < ceil(T/2)+1 s, +1 s slack) only "
+      "this is demanded: young switches are left alone (all ports NO_FLOOD with --no-flood), host-facing ports of "
+      "the other switches flood, the flooding links among the other switches are acyclic; once no switch is young "
+      "every clause is in force.  --no-flood alone: a young switch without known links may have all ports blocked",
+      "--no_flow: the harness (as the operator would) installs the LLDP-to-controller entry itself",
       "a disconnected switch keeps forwarding with its last port configuration; exactly-once delivery is "
       "claimed for converged states with every switch connected",
       "datapath ids / port numbers are concretised from boundary pools (64-bit, 16-bit < OFPP_MAX), injective, "
       "not order preserving; port numbers 0xff00..0xffff are not used as physical ports",
-      "silent wire changes only (no PORT_STATUS); default options of both components (no hold-down, "
-      "no no-flood-by-default)"]
+      "silent wire changes only (no PORT_STATUS)"]
   import time
   import resource
 
@@ -475,17 +630,46 @@ def _conformance(ctx, quick, phase, tm):
   hist += [gen.random_history(seed * 100003 + 50000 + i, steps=24, maxn=12, selfloops=(i % 4 == 0))
            for i in range(nb)]
   hist += [gen.random_history(seed * 100003 + 90000 + i, n=12, np=5, steps=16) for i in range(3 if quick else 20)]
-  tsc, spec_traces = tlc_scenarios(ctx, 30 if quick else 500, seed + 1)
+  # --- configurations other than the default one (Topo.tla cfg): link timeouts from 1 s to 30 s, the
+  # spanning_tree options, the discovery flags; times of the histories are those of the configuration
+  import random
+  crnd = random.Random(seed * 7177 + 3)
+  conf = []
+  np2 = gen.full_universe(2)[0]
+  grid = [dict(to=t, nofl=a, hold=b) for t in (1, 2, 3, 4, 5, 30) for a, b in ((False, False),)] + \
+         [dict(to=t, nofl=a, hold=b) for t in (4, 10) for a, b in ((True, True), (False, True), (True, False))]
+  for gi, g in enumerate(grid):
+    c = dict(gen.DEFAULT_CFG, **g)
+    if gi % 3 == 1:
+      c.update(flow=False, drop=(gi % 2 == 0), eat=True)
+    assert gen.fits(c, 2, np2)
+    for i in range(16):                    # the 16 multigraphs on 2 switches (quick: 8 per configuration)
+      if quick and (i + gi) % 2:
+        continue
+      conf.append(gen.static_scenario(2, [(i >> k) & 1 for k in range(4)], i, variant=(i + gi) % 3, seed=seed + gi,
+                                      cfg=c))
+  np3 = gen.full_universe(3)[0]
+  for i in sorted(crnd.sample(range(4096), 100 if quick else 1200)):
+    conf.append(gen.static_scenario(3, [(i >> k) & 1 for k in range(12)], i, variant=i % 3, seed=seed,
+                                    floods="one", cfg=gen.random_cfg(crnd, 3, np3)))
+  conf += [gen.random_history(seed * 100003 + 200000 + i, steps=30, selfloops=(i % 5 == 0), cfg="random")
+           for i in range(50 if quick else 600)]
+  conf += [gen.random_history(seed * 100003 + 250000 + i, steps=24, maxn=12, cfg="random")
+           for i in range(6 if quick else 100)]
+  tsc, spec_traces = tlc_scenarios(ctx, 40 if quick else 600, seed + 1)
   validator_controls(ctx, spec_traces[:200])
   phase["scenarios_and_validator_controls"] = tm.take()
-  run_and_validate(ctx, "implementation", static + hist + tsc, shards)
+  run_and_validate(ctx, "implementation", static + hist + conf + tsc, shards)
   phase["run_and_validate"] = tm.take()
   ctx.notes["bounds"] = dict(static=("all 16 multigraphs on 2 switches x 3 bring-up orders; 3 switches: " +
                                      ("all 1000 classes modulo swapping parallel cables (flood probe from one switch) + 400 sampled labelled ones"
                                       if quick else "all 4096 labelled multigraphs x 3 bring-up orders") +
                                      "; %d / %d sampled on 4 / 5 switches" % ((100, 30) if quick else (4000, 600))),
                              dynamic="%d random histories (<=5 switches) + %d (<=12 switches) + TLC-simulated ones"
-                             % (nh, nb))
+                             % (nh, nb),
+                             configurations="%d histories under non-default configurations: 2-switch multigraphs x 12 "
+                             "configurations, sampled 3-switch multigraphs and random histories under random legal "
+                             "configurations; + the TLC-simulated ones (12 configurations)" % len(conf))
 
 
 def replay_one(ctx, rep):
